@@ -18,11 +18,14 @@ import (
 // OAuth2 names of the client authentication methods ...), other spellings of valid values (case)
 // and one value nobody knows.
 //
-// Values nobody documents are tried only for options whose values the loader checks itself. Where
-// the loader takes every string (log.level, log.format, tracing.span_processor, cors methods,
-// error_handlers redirect code is documented as unchecked) an undocumented value is not a valid
-// configuration and outside the property's quantifier (see the note on log.level in table_test.go; the
-// loader's `no` level belongs here as well: every other unknown string is accepted, too, and means info).
+// Values outside the documented set are tried where the loader checks the values itself (TLS, cache type,
+// OAuth2 client authentication method, api key location, scopes matching strategy) and where the
+// documentation does not restrict them (error_handlers redirect `code`: "Heimdall does not check the
+// configured code for HTTP redirect validity"; cors `allowed_methods`: "list of methods", tried with the
+// methods net/http knows). Where the documentation enumerates the values and the loader takes every
+// string (log.level, log.format, tracing.span_processor) another value is not a valid configuration and
+// outside the property's quantifier (see the note on log.level in table_test.go; the loader's `no` level
+// belongs here as well: every other unknown string is accepted from the environment, too, and means info).
 
 // documentedSuites: docs/content/docs/configuration/types.adoc, TLS, cipher_suites
 var documentedSuites = map[string]bool{
@@ -60,25 +63,28 @@ func (h *harness) enumEntries() []entry {
 	base := cat(kv("mechanisms.authenticators.0", "id", "a0", "type", "anonymous"), kv("mechanisms.finalizers.0", "id", "f0", "type", "noop"))
 	const url = "http://foo.bar/x"
 
-	// TLS: every service has its own tls section decoded by the same hooks
-	for _, svc := range []string{"decision", "proxy", "management"} {
+	// TLS: every service has its own tls section of the same type, decoded by the same hooks: the values take turns on the services
+	svcs := []string{"decision", "proxy", "management"}
+	for i, name := range cipherSuiteSpellings() {
+		svc := svcs[i%len(svcs)]
+		add("tls.cipher_suites="+name, "serve."+svc+".tls.cipher_suites="+name, documentedSuites[name], kv("serve."+svc+".tls.key_store", "path", "/path/ks.pem"),
+			kv("serve."+svc+".tls", "min_version", "TLS1.2"), one("serve."+svc+".tls.cipher_suites.0", name, nil))
+	}
+	for i, v := range []string{"TLS1.0", "TLS1.1", "TLS1.2", "TLS1.3", "tls1.2", "TLSv1.2", "1.2", "TLS 1.3", "VersionTLS12", "SSL3.0", "TLS1.4"} {
+		svc, alt := svcs[i%len(svcs)], "TLS1.2"
+		if v == alt {
+			alt = "TLS1.3"
+		}
+		add("tls.min_version="+v, "serve."+svc+".tls.min_version="+v, v == "TLS1.2" || v == "TLS1.3", kv("serve."+svc+".tls.key_store", "path", "/path/ks.pem"),
+			one("serve."+svc+".tls.min_version", v, alt))
+	}
+	for _, svc := range svcs {
 		ks := kv("serve."+svc+".tls.key_store", "path", "/path/ks.pem")
-		for _, name := range cipherSuiteSpellings() {
-			add("tls.cipher_suites="+name, "serve."+svc+".tls.cipher_suites="+name, documentedSuites[name], ks,
-				kv("serve."+svc+".tls", "min_version", "TLS1.2"), one("serve."+svc+".tls.cipher_suites.0", name, nil))
-		}
 		// two suites in one list: a valid one first must not let the second pass unchecked
-		add("tls.cipher_suites=valid+legacy", "serve."+svc+".tls.cipher_suites=[valid, constant identifier]", false, ks,
+		add("tls.cipher_suites=[valid, constant identifier]", "serve."+svc+".tls.cipher_suites=[valid, constant identifier]", false, ks,
 			opt(kv("serve."+svc+".tls", "cipher_suites.0", "TLS_ECDHE_RSA_WITH_AES_256_GCM_SHA384", "cipher_suites.1", "TLS_ECDHE_ECDSA_WITH_CHACHA20_POLY1305")))
-		add("tls.cipher_suites=valid+insecure", "serve."+svc+".tls.cipher_suites=[valid, insecure]", false, ks,
+		add("tls.cipher_suites=[valid, insecure]", "serve."+svc+".tls.cipher_suites=[valid, insecure]", false, ks,
 			opt(kv("serve."+svc+".tls", "cipher_suites.0", "TLS_ECDHE_RSA_WITH_AES_256_GCM_SHA384", "cipher_suites.1", "TLS_RSA_WITH_AES_128_CBC_SHA")))
-		for _, v := range []string{"TLS1.0", "TLS1.1", "TLS1.2", "TLS1.3", "tls1.2", "TLSv1.2", "1.2", "TLS 1.3", "VersionTLS12", "SSL3.0", "TLS1.4"} {
-			alt := "TLS1.2"
-			if v == alt {
-				alt = "TLS1.3"
-			}
-			add("tls.min_version="+v, "serve."+svc+".tls.min_version="+v, v == "TLS1.2" || v == "TLS1.3", ks, one("serve."+svc+".tls.min_version", v, alt))
-		}
 	}
 
 	// log, tracing: the loader takes every string, so only the documented values are valid configurations
